@@ -153,10 +153,53 @@ pub fn explore<M: Machine>(m: &M, lim: &Limits, acc: &mut Acc) {
         let hcn = m.has_check_new();
         let aborted = std::sync::atomic::AtomicBool::new(false);
         let aborted = &aborted;
+        // per-worker "what am I executing" slots for the nontermination watchdog
+        let nchunks = (frontier.len() + chunk - 1) / chunk.max(1);
+        let slots: Vec<(std::sync::atomic::AtomicU64, std::sync::Mutex<Option<(u32, M::Op)>>)> = (0..nchunks).map(|_| (std::sync::atomic::AtomicU64::new(0), std::sync::Mutex::new(None))).collect();
+        let slots = &slots;
+        let level_done = std::sync::atomic::AtomicBool::new(false);
+        let level_done = &level_done;
+        let recs_ro = &recs;
+        let hang_secs: u64 = std::env::var("VERIF_E1_HANG").ok().and_then(|x| x.parse().ok()).unwrap_or(90);
         let results: Vec<Out<M::S, M::Op>> = std::thread::scope(|sc| {
+            // watchdog: a worker that stays inside one step for `hang_secs` seconds has met a call that does not
+            // return; report it with the history that leads there (recs is not modified while workers run)
+            sc.spawn(move || {
+                let mut seen: Vec<(u64, u64)> = vec![(0, 0); slots.len()];
+                loop {
+                    std::thread::sleep(Duration::from_millis(500));
+                    if level_done.load(std::sync::atomic::Ordering::Relaxed) {
+                        return;
+                    }
+                    for (w, (beat, cur)) in slots.iter().enumerate() {
+                        let b = beat.load(std::sync::atomic::Ordering::Relaxed);
+                        if b == 0 || b == u64::MAX {
+                            continue; // not started / finished
+                        }
+                        if seen[w].0 == b {
+                            seen[w].1 += 1;
+                        } else {
+                            seen[w] = (b, 0);
+                        }
+                        if seen[w].1 >= hang_secs * 2 {
+                            if let Some((pid, op)) = cur.lock().unwrap().clone() {
+                                let (init, mut ops) = path_of(recs_ro, pid);
+                                ops.push(op);
+                                crate::report::abort_with_violation(Viol {
+                                    call: format!("{:?}", ops.last().unwrap()),
+                                    symptom: format!("nontermination (one operation, with its observations, did not return within {} s)", hang_secs),
+                                    detail: format!("{} init#{} history {:?}", m.name(), init, ops),
+                                    replay: replay_value(m, init, &ops),
+                                });
+                            }
+                        }
+                    }
+                }
+            });
             let hs: Vec<_> = frontier
                 .chunks(chunk)
-                .map(|ch| {
+                .enumerate()
+                .map(|(wi, ch)| {
                     sc.spawn(move || {
                         let mut out = vec![];
                         let mut vs = vec![];
@@ -170,6 +213,8 @@ pub fn explore<M: Machine>(m: &M, lim: &Limits, acc: &mut Acc) {
                                 break;
                             }
                             for op in m.ops(s) {
+                                *slots[wi].1.lock().unwrap() = Some((*id, op.clone()));
+                                slots[wi].0.store(tr + 1, std::sync::atomic::Ordering::Relaxed);
                                 let mut s2 = s.clone();
                                 tr += 1;
                                 match m.step(&mut s2, &op) {
@@ -192,11 +237,14 @@ pub fn explore<M: Machine>(m: &M, lim: &Limits, acc: &mut Acc) {
                                 }
                             }
                         }
+                        slots[wi].0.store(u64::MAX, std::sync::atomic::Ordering::Relaxed);
                         (out, vs, tr)
                     })
                 })
                 .collect();
-            hs.into_iter().map(|h| h.join().expect("explorer worker panicked (harness bug)")).collect()
+            let r = hs.into_iter().map(|h| h.join().expect("explorer worker panicked (harness bug)")).collect();
+            level_done.store(true, std::sync::atomic::Ordering::Relaxed);
+            r
         });
         if aborted.load(std::sync::atomic::Ordering::Relaxed) {
             exhaustive = false;
@@ -344,7 +392,30 @@ pub fn replay<M: Machine>(m: &M, r: &Value) -> u64 {
     let init = r["init"].as_u64().unwrap_or(0) as usize;
     let ops: Vec<M::Op> = serde_json::from_value(r["ops"].clone()).expect("ops");
     let mut s = m.inits().swap_remove(init);
+    // a replayed step that does not return is itself the violation being replayed
+    let progress = std::sync::Arc::new(std::sync::atomic::AtomicU64::new(0));
+    {
+        let progress = progress.clone();
+        let hang_secs: u64 = std::env::var("VERIF_E1_HANG").ok().and_then(|x| x.parse().ok()).unwrap_or(90);
+        std::thread::spawn(move || {
+            let (mut last, mut still) = (u64::MAX, 0u64);
+            loop {
+                std::thread::sleep(Duration::from_secs(1));
+                let p = progress.load(std::sync::atomic::Ordering::Relaxed);
+                if p == u64::MAX {
+                    return;
+                }
+                if p == last { still += 1 } else { last = p; still = 0 }
+                if still >= hang_secs {
+                    println!("  violation: nontermination (step {} did not return within {} s)", p, hang_secs);
+                    println!("replay: 1 violation(s)");
+                    std::process::exit(1);
+                }
+            }
+        });
+    }
     for (i, op) in ops.iter().enumerate() {
+        progress.store(i as u64, std::sync::atomic::Ordering::Relaxed);
         println!("  step {} {:?}", i, op);
         match m.step(&mut s, op).and_then(|_| m.check_new(&s)) {
             Ok(_) => {}
@@ -354,6 +425,7 @@ pub fn replay<M: Machine>(m: &M, r: &Value) -> u64 {
             }
         }
     }
+    progress.store(u64::MAX, std::sync::atomic::Ordering::Relaxed);
     0
 }
 
